@@ -135,6 +135,8 @@ def check(ctx, replay=None):
     # whatever the library does about that, a nil result has to mean what the statement says
     work += [{"n": n, "flags": fl, "seed": ctx.seed * 11 + n, "spawns": 2, "unprivileged": up, "no_nnp": nn}
              for n in (2, 16) for fl in (1, 3, 0) for up, nn in ((True, True), (True, False), (False, True))]
+    # another policy content (default action log, a second group): the flags mean the same whatever the policy says
+    work += [{"n": n, "flags": fl, "seed": ctx.seed * 13 + n, "spawns": 2, "policy_default": "log"} for n in (2, 8, 32) for fl in (1, 3, 0, 2)]
     # an earlier load of ANOTHER policy, with or without thread-sync: whether the recorded load reaches the other threads depends on its own flags only
     work += [{"n": n, "flags": fl, "seed": ctx.seed + n, "spawns": 2, "preload": True, "preload_other": True, "preload_flags": pf}
              for n in (2, 8) for fl in (0, 2, 1, 3) for pf in (1, 3, 0)]
